@@ -397,6 +397,40 @@ func checkUnionEnumValidators(w *World, r *Result) {
 		return true
 	})
 	r.cond(all, "AGR-C04e", et.Name, "tuple lists every member", fnPos(w, et), "no filter: every value Go can emit is in the tuple", "enumTuple filters members: a value Go can emit is rejected")
+	// every element of the tuple is the value of its member's constant (never its position: IsIota only speaks of the
+	// exported members, an unexported outlier keeps its own value)
+	ast.Inspect(et.Decl.Body, func(x ast.Node) bool {
+		rs, ok := x.(*ast.RangeStmt)
+		if !ok || !strings.HasSuffix(es(rs.X), ".Members") || identOf(rs.Value) == nil {
+			return true
+		}
+		v := etinfo.Defs[identOf(rs.Value)]
+		ast.Inspect(rs.Body, func(y ast.Node) bool {
+			as, ok := y.(*ast.AssignStmt)
+			if !ok || len(as.Lhs) != 1 || len(as.Rhs) != 1 {
+				return true
+			}
+			isStore := false
+			if _, isIx := ast.Unparen(as.Lhs[0]).(*ast.IndexExpr); isIx {
+				isStore = true
+			}
+			if call, ok := ast.Unparen(as.Rhs[0]).(*ast.CallExpr); ok && isBuiltinCall(etinfo, call, "append") {
+				isStore = true
+			}
+			if !isStore {
+				return true
+			}
+			val := as.Rhs[0]
+			if call, ok := ast.Unparen(val).(*ast.CallExpr); ok && isBuiltinCall(etinfo, call, "append") && len(call.Args) == 2 {
+				val = call.Args[1]
+			}
+			r.cond(rendersConstVal(etinfo, val, v), "AGR-C04e", et.Name, "tuple element "+es(val), w.Pos(as.Pos()),
+				"the element is the value of the member's constant",
+				"a tuple element is `"+es(val)+"`, not the value of the member's constant: positions equal values only for the exported members of an iota enum, so an unexported member with another value (deleted = 100) is listed under its position and the value Go emits is rejected")
+			return true
+		})
+		return true
+	})
 }
 
 // checkEmptyKeyList (AGR-C04k): `key IN (<joined keys>)` is not valid SQL for an empty list, so the struct
